@@ -3,6 +3,8 @@ import MosnVerif.Lemmas.TcpLedger
 import MosnVerif.Gen.ResourceSites
 import MosnVerif.Lemmas.PoolMuxSpec
 import MosnVerif.Lemmas.PoolH2Steps
+import MosnVerif.Lemmas.PoolWinLedger
+import MosnVerif.Lemmas.PoolWinWitness
 /-!
 # C10 — circuit-breaker and active-gauge accounting is conserved (property theorems only)
 
@@ -434,5 +436,66 @@ example : ((fun (s : PoolH2.State) => (s.connHost, s.connCluster, s.actHost, s.r
     (0, 0, 0, 0, false, false) := by decide
 
 end Pools
+
+/-! ### HTTP/1 and ping-pong pools: every request end cause gives back exactly what NewStream took
+
+`Model/PoolWin.lean`: what an admitted `NewStream` takes (`Gen/PoolDestroy.{h1,pp}TakeProg`) and the statement program of
+`OnDestroyStream` with its give-back sites and early returns (`{h1,pp}DestroyProg`, helpers inlined) are regenerated from
+the Go source; the end causes are the labels {response complete (keep-alive), response with `Connection: close`, local
+reset, remote reset, connection lost mid-response}, connect failure and breaker refusal are results of `newStream`.
+`liveN` = requests admitted minus requests ended, `owed x tasks` = give-backs `x` still ahead in the OnDestroyStream calls
+in progress.  Proved for every program in the class `ledgerOk` (each give-back exactly once, no `return` before one of
+them: every path through OnDestroyStream reaches each give-back exactly once); the regenerated programs are decided to
+be in it. -/
+section PoolLedger
+open MosnVerif.Model.PoolWin MosnVerif.Lemmas.PoolWin MosnVerif.Lemmas.PoolWinWitness
+open MosnVerif.Model.Pool (Kind Dial Res)
+
+theorem destroy_prog_gives_back_once (k : Kind) : ledgerOk k (destroyProg k) = true := by
+  cases k
+  · exact ledgerOk_h1
+  · exact ledgerOk_pp
+
+/-- **request_ledger_exact**: after EVERY label of every interleaving, for both pools and every limit:
+`Requests().Cur()` = slots held elsewhere + requests in flight + give-backs still ahead (0 when unlimited), and both
+request_active gauges = requests in flight + their give-backs still ahead. -/
+theorem request_ledger_exact (k : Kind) (maxConn maxReq : Nat) (ls : List MosnVerif.Model.PoolWin.Label) :
+    let s := MosnVerif.Model.PoolWin.run (MosnVerif.Model.PoolWin.init k maxConn maxReq) ls
+    s.reqCur = (if maxReq = 0 then 0 else (s.ext : Int) + s.liveN + (owed .decRes s.tasks : Nat)) ∧
+    s.rqHost = s.liveN + (owed .decHost s.tasks : Nat) ∧ s.rqCluster = s.liveN + (owed .decCluster s.tasks : Nat) :=
+  MosnVerif.Lemmas.PoolWinLedger.request_ledger_exact k maxConn maxReq _ (destroy_prog_gives_back_once k) ls
+
+/-- **idle ⇒ zero**: no request in flight and no OnDestroyStream in progress ⇒ the breaker holds only what other pools
+hold and both request_active gauges are 0 — after any history, whatever the end causes were. -/
+theorem pool_ledger_quiescent_zero (k : Kind) (maxConn maxReq : Nat) (ls : List MosnVerif.Model.PoolWin.Label) :
+    let s := MosnVerif.Model.PoolWin.run (MosnVerif.Model.PoolWin.init k maxConn maxReq) ls
+    s.tasks = [] → s.liveN = 0 → s.reqCur = (if maxReq = 0 then 0 else (s.ext : Int)) ∧ s.rqHost = 0 ∧ s.rqCluster = 0 :=
+  MosnVerif.Lemmas.PoolWinLedger.ledger_quiescent_zero k maxConn maxReq _ (destroy_prog_gives_back_once k) ls
+
+/-- negation witness (`return` right after the close in HTTP/1 OnDestroyStream): outside the class; one locally reset
+request leaves the pool idle with Requests().Cur() = 1 and request_active = 1, and with max_requests = 1 the next
+NewStream overflows. -/
+theorem return_after_close_leaks :
+    ledgerOk .h1 leak = false ∧
+    (MosnVerif.Model.PoolWin.run (initWith .h1 0 1 leak) leakSched).tasks = [] ∧
+    (MosnVerif.Model.PoolWin.run (initWith .h1 0 1 leak) leakSched).liveN = 0 ∧
+    (MosnVerif.Model.PoolWin.run (initWith .h1 0 1 leak) leakSched).reqCur = 1 ∧
+    (MosnVerif.Model.PoolWin.run (initWith .h1 0 1 leak) leakSched).rqHost = 1 ∧
+    (MosnVerif.Model.PoolWin.step (MosnVerif.Model.PoolWin.run (initWith .h1 0 1 leak) leakSched) (.newStream .ok)).2 = .overflow :=
+  ⟨leak_not_ledgerOk, leak_tasks, leak_liveN, leak_reqCur, leak_rqHost, leak_overflow⟩
+
+-- non-vacuity: the same history on the pool as it is gives everything back and the next request is admitted
+example : (fun (s : MosnVerif.Model.PoolWin.State) => (s.tasks.length, s.liveN, s.reqCur, s.rqHost, s.rqCluster, s.cnHost))
+    (MosnVerif.Model.PoolWin.run (MosnVerif.Model.PoolWin.init .h1 0 1)
+      [.newStream .ok, .endStream 0 .localReset, .taskStep 0, .taskStep 0, .taskStep 0, .taskStep 0, .taskStep 0, .taskStep 0])
+    = (0, 0, 0, 0, 0, 0) := by decide
+example : (MosnVerif.Model.PoolWin.step (MosnVerif.Model.PoolWin.run (MosnVerif.Model.PoolWin.init .h1 0 1)
+      [.newStream .ok, .endStream 0 .localReset, .taskStep 0, .taskStep 0, .taskStep 0, .taskStep 0, .taskStep 0, .taskStep 0])
+      (.newStream .ok)).2 = .ok 1 := by decide
+-- in the middle of OnDestroyStream the ledger counts the give-backs still ahead (HTTP/1: close first, give-backs after)
+example : (fun (s : MosnVerif.Model.PoolWin.State) => (s.liveN, s.reqCur, owed .decRes s.tasks))
+    (MosnVerif.Model.PoolWin.run (MosnVerif.Model.PoolWin.init .h1 0 1) [.newStream .ok, .endStream 0 .localReset, .taskStep 0]) = (0, 1, 1) := by decide
+
+end PoolLedger
 
 end MosnVerif.Props.C10
